@@ -124,7 +124,8 @@ class SElem:
         return self.cls
 
     def sym_truth(self, it):
-        return True
+        # lxml: the truth value of an element is "has children" (deprecated, FutureWarning), not "exists"
+        raise Unsupported("truth value of an lxml element (means 'has children'); compare with None instead")
 
     def sym_is(self, it, other):
         return self is other
@@ -331,7 +332,7 @@ class SChild:
         self.fields = {}
 
     def sym_truth(self, it):
-        return True
+        raise Unsupported("truth value of an lxml element (means 'has children'); compare with None instead")
 
     def sym_pytype(self):
         from . import decls
